@@ -116,6 +116,12 @@ def check(provider, key, first, last, rnd, findings, grid=200):
             if not (datetime(first.year, first.month, first.day) <= t <= datetime(last.year, last.month, last.day) + timedelta(days=1)):
                 out.append((f"onset {t} of {kind} lies outside the window {first}..{last}", None))
     trans = transitions_in(src, lo, hi)
+    # the listed classes speak about the changes of the SOURCE zone around an instant: a short period that begins on the first day of the
+    # window (before `lo`) or ends after `hi` is still that short period - classification looks 70 days beyond the probed range
+    try:
+        trans_cls = transitions_in(src, max(lo - timedelta(days=70), datetime(1901, 1, 1)), min(hi + timedelta(days=70), datetime(2100, 1, 1)))
+    except OverflowError:
+        trans_cls = trans
     probes = []
     for i, t in enumerate(trans):
         probes += [t - timedelta(seconds=1), t, t + timedelta(seconds=1)]
@@ -132,7 +138,7 @@ def check(provider, key, first, last, rnd, findings, grid=200):
         a = inst.replace(tzinfo=timezone.utc).astimezone(src)
         want = (a.utcoffset(), a.tzname())
         got = rfc_at(obs, inst)
-        cls = classify(src, trans, inst, want)
+        cls = classify(src, trans_cls, inst, want)
         if got is None:
             m = f"{key}: no observance of the generated VTIMEZONE is in effect at {inst}Z (window {first}..{last})"
         elif got[2] != want[0]:
